@@ -92,15 +92,24 @@ static void prop(Ctx &c) {
         cfg.chunk_max = picks[c.pick(9)];
         if (c.boolean()) cfg.chunk_min = (long)(1 + c.draw(std::min<long>(cfg.chunk_max, 40000) - 1));
     }
+    // minimum at or above the automatic ceiling of 128 KiB (the automatic maximum is then raised to it: chunks of exactly that size)
+    if (c.gver >= 4 && !cfg.manual && c.rarely(12)) { static const long mins[] = {131072, 131073, 150000, 200000}; cfg.chunk_min = mins[c.pick(4)]; static const long maxs[] = {-1, 400000, 1000000}; cfg.chunk_max = maxs[c.pick(3)]; if (cfg.chunk_max < 0) cfg.chunk_max = 10485760; if (len < 500000) { len = 500000 + c.draw(300000); D1 = gen::make_content(kind, len, c.draw(0xffff)); } c.label("minimum>=128KiB"); }
     if (c.rarely(3)) cfg.chunk_hash = (int)c.draw(3);
     if (c.rarely(6)) { cfg.uncomp = true; }
     // end_chunk offsets (manual: always some; auto: sometimes, which disables oracle (d))
     std::vector<size_t> ends;
     if (cfg.manual || c.rarely(5)) { size_t n = cfg.manual ? 1 + c.draw(30) : 1 + c.draw(4); for (size_t i = 0; i < n; i++) ends.push_back(c.draw(D1.size())); std::sort(ends.begin(), ends.end()); }
+    // one manual chunk larger than the compressor's window (4 MiB at the default level), then ordinary compressible chunks; the other
+    // input has a short chunk in its place.  Whatever the first chunk was, the chunks of the shared suffix must come out the same.
+    bool huge = c.gver >= 4 && c.rarely(c.tier ? 25 : 90); size_t hbig = 0;
+    if (huge) { cfg.manual = true; cfg.comp = ZCK_COMP_ZSTD; cfg.level = -1; cfg.chunk_max = -1; cfg.chunk_min = -1; cfg.dict.clear(); hbig = (4u << 20) + 1 + c.draw(1u << 20); size_t tail = 150000 + c.draw(250000);
+        D1 = gen::make_content(3, hbig, c.draw(0xffff)); Bytes t = gen::make_content(c.boolean() ? 6 : 5, tail, c.draw(0xffff)); D1.insert(D1.end(), t.begin(), t.end());
+        ends.clear(); ends.push_back(hbig); for (size_t p = hbig + 40000 + c.draw(40000); p < D1.size(); p += 50000 + c.draw(40000)) ends.push_back(p); c.label("chunk-larger-than-the-compressor-window"); }
     std::vector<size_t> cuts1 = gen_cuts(c, D1.size()), cuts2 = gen_cuts(c, D1.size());
     // edit
     Bytes D2 = D1; std::string edesc;
-    {
+    if (huge) { size_t keep = 1 + c.draw(3000); D2.erase(D2.begin() + keep, D2.begin() + hbig); edesc = "first chunk cut down from " + std::to_string(hbig) + " to " + std::to_string(keep) + " bytes"; }
+    else {
         uint64_t where = c.draw(2); size_t pos = D1.empty() ? 0 : where == 0 ? c.draw(std::min<size_t>(D1.size(), 2000)) : where == 1 ? c.draw(D1.size()) : D1.size() - c.draw(std::min<size_t>(D1.size(), 2000));
         size_t n = 1 + c.skewed(50000); uint64_t op = c.draw(2);
         if (op == 0) { Bytes ins(n); gen::fill_random(ins.data(), n, c.draw(9999)); D2.insert(D2.begin() + pos, ins.begin(), ins.end()); edesc = "insert " + std::to_string(n) + "@" + std::to_string(pos); }
@@ -138,7 +147,7 @@ static void prop(Ctx &c) {
     std::sort(ends2.begin(), ends2.end());
     Out d = run(c, cfg, D2, make_ops(D2.size(), gen_cuts(c, D2.size()), ends2), "edited content");
     // (e) the same two contents written by two contexts that are alive together and fed alternately
-    if (c.gver >= 4 && c.rarely(3)) {
+    if (c.gver >= 4 && !huge && c.rarely(3)) {
         std::vector<lib::WOp> opsd = make_ops(D2.size(), gen_cuts(c, D2.size()), ends2); Bytes fa, fb; std::string err;
         if (!write_interleaved(cfg, D1, ops2, D2, opsd, fa, fb, err)) c.fail("write-failed", "interleaved writers: " + err);
         c.label("interleaved-writers");
